@@ -448,17 +448,21 @@ impl DataView {
     ) -> JsResult<JsValue> {
         // 1. Perform ? RequireInternalSlot(view, [[DataView]]).
         // 2. Assert: view has a [[ViewedArrayBuffer]] internal slot.
-        let object = view.as_object();
-        let view = object
-            .as_ref()
-            .and_then(JsObject::downcast_ref::<Self>)
+        let view = view
+            .as_object()
+            .and_then(|o| o.clone().downcast::<Self>().ok())
             .ok_or_else(|| JsNativeError::typ().with_message("`this` is not a DataView"))?;
 
         // 3. Let getIndex be ? ToIndex(requestIndex).
+        // NOTE: the conversion can run user code that touches the view, so the view must not be
+        // borrowed across it.
         let get_index = request_index.to_index(context)?;
 
         // 4. Set isLittleEndian to ToBoolean(isLittleEndian).
         let is_little_endian = is_little_endian.to_boolean();
+
+        let view = view.borrow();
+        let view = view.data();
 
         // 6. Let viewRecord be MakeDataViewWithBufferWitnessRecord(view, unordered).
         // 7. NOTE: Bounds checking is not a synchronizing operation when view's backing buffer is a growable SharedArrayBuffer.
@@ -790,13 +794,14 @@ impl DataView {
     ) -> JsResult<JsValue> {
         // 1. Perform ? RequireInternalSlot(view, [[DataView]]).
         // 2. Assert: view has a [[ViewedArrayBuffer]] internal slot.
-        let object = view.as_object();
-        let view = object
-            .as_ref()
-            .and_then(JsObject::downcast_ref::<Self>)
+        let view = view
+            .as_object()
+            .and_then(|o| o.clone().downcast::<Self>().ok())
             .ok_or_else(|| JsNativeError::typ().with_message("`this` is not a DataView"))?;
 
         // 3. Let getIndex be ? ToIndex(requestIndex).
+        // NOTE: the conversions can run user code that touches the view, so the view must not be
+        // borrowed across them.
         let get_index = request_index.to_index(context)?;
 
         // 4. If IsBigIntElementType(type) is true, let numberValue be ? ToBigInt(value).
@@ -805,6 +810,9 @@ impl DataView {
 
         // 6. Set isLittleEndian to ToBoolean(isLittleEndian).
         let is_little_endian = is_little_endian.to_boolean();
+
+        let view = view.borrow();
+        let view = view.data();
 
         // 8. Let viewRecord be MakeDataViewWithBufferWitnessRecord(view, unordered).
         // 9. NOTE: Bounds checking is not a synchronizing operation when view's backing buffer is a growable SharedArrayBuffer.
